@@ -558,4 +558,20 @@ theorem unmerged_iff_failures (pre : Fs) (es : List Entry) (fin : Fs) :
       · exact h
       · rw [if_neg h] at h4; cases h4
 
+/-! ## a concrete root and contents used by the non-vacuity examples -/
+
+def exPre : Fs :=
+  ⟨[([], 1, ⟨.dir, 0o755, 0, 0, 0⟩), (["opt"], 2, ⟨.dir, 0o755, 0, 0, 0⟩), (["a", "opt"], 3, ⟨.dir, 0o755, 0, 0, 0⟩),
+    (["f", "a", "opt"], 4, ⟨.file "78", 0o644, 0, 0, 5⟩), (["t"], 5, ⟨.dir, 0o755, 0, 0, 0⟩),
+    (["keep", "t"], 6, ⟨.file "6b", 0o644, 0, 0, 5⟩), (["l"], 7, ⟨.sym "t", 0o777, 0, 0, 5⟩),
+    (["usr"], 8, ⟨.dir, 0o755, 0, 0, 0⟩), (["x", "usr"], 9, ⟨.file "79", 0o644, 0, 0, 5⟩)], 10⟩
+def exEs : List Entry :=
+  [⟨["opt"], .dir, 0o755, 0, 0, 7⟩, ⟨["l"], .sym "t", 0o777, 0, 0, 7⟩, ⟨["f", "a", "opt"], .reg "78" none, 0o644, 0, 0, 7⟩,
+   ⟨["a", "opt"], .dir, 0o755, 0, 0, 7⟩, ⟨["usr"], .dir, 0o755, 0, 0, 7⟩, ⟨["gone"], .fifo, 0o644, 0, 0, 7⟩]
+def exEnv : Env := ⟨0o022, 0, 0⟩
+
+def exNew : List Entry :=
+  [⟨["opt"], .dir, 0o755, 0, 0, 9⟩, ⟨["f", "a", "opt"], .reg "6e6577" none, 0o644, 0, 0, 9⟩, ⟨["a", "opt"], .dir, 0o755, 0, 0, 9⟩,
+   ⟨["n", "opt"], .reg "6e" none, 0o644, 0, 0, 9⟩]
+
 end Pkgcore.C20
